@@ -1,6 +1,6 @@
-From Coq Require Import List NArith Bool.
+From Coq Require Import List NArith ZArith Bool.
 From LTV.C15 Require Import ParamsGen.
-From LTV.C15 Require Import Model Proofs ProofsMid ProofsTableA ProofsTableB ProofsTableC ProofsTokens ProofsCounters.
+From LTV.C15 Require Import Model Proofs ProofsMid ProofsTableA ProofsTableB ProofsTableC ProofsTokens ProofsCounters ProofsReply.
 Import ListNotations.
 Local Open Scope N_scope.
 
@@ -62,12 +62,18 @@ Theorem token_window_accept : forall sha, (forall x, length (sha x) = 20%nat) ->
 Proof. exact token_valid_spec. Qed.
 Print Assumptions token_window_accept.
 
-Theorem announce_accepted_iff_token_valid : forall sha s ih ip port tok, err s = false ->
+Theorem announce_accepted_iff_token_valid : forall sha s ih ip port tok, err s = false -> port_ok port ->
   (snd (step sha s (OAnnounce ih ip port tok)) = Rnone <-> token_valid sha s tok ip = true) /\
   (snd (step sha s (OAnnounce ih ip port tok)) = Rerr 1 <-> token_valid sha s tok ip = false) /\
   (token_valid sha s tok ip = false -> fst (step sha s (OAnnounce ih ip port tok)) = s).
 Proof. exact announce_accept_iff. Qed.
 Print Assumptions announce_accepted_iff_token_valid.
+
+(* a port outside 1..65535 is refused whatever the token (regression for /repo d3749d4) *)
+Theorem announce_port_out_of_range_refused : forall sha s ih ip port tok, err s = false -> ~ port_ok port ->
+  fst (step sha s (OAnnounce ih ip port tok)) = s /\ snd (step sha s (OAnnounce ih ip port tok)) <> Rnone.
+Proof. exact announce_bad_port. Qed.
+Print Assumptions announce_port_out_of_range_refused.
 
 (* token_window, lifetime: over any op list a token issued now is still accepted after zero or one
    rotation, and after two or more only if it collides with a token of the two newest secrets *)
@@ -82,26 +88,28 @@ Theorem token_window_lifetime : forall sha, (forall x, length (sha x) = 20%nat) 
 Proof. exact token_lifetime. Qed.
 Print Assumptions token_window_lifetime.
 
-(* announce_then_get as stated by the property (network byte order) is false of the code *)
-Theorem announce_then_get_refuted :
-  exists (sha : list N -> list N) s ih ip port tok ip2 rnd,
-    (forall x, length (sha x) = 20%nat) /\ err s = false /\ token_valid sha s tok ip = true /\ port16 port <> 0 /\
-    let s1 := fst (step sha s (OAnnounce ih ip port tok)) in
-    exists t vals, snd (step sha s1 (OGetPeers ih ip2 rnd)) = Rpeers t vals /\
-      ~ In (ipbytes ip ++ [(port / 256) mod 256; port mod 256]) vals /\
-      vals = [ipbytes ip ++ [port mod 256; (port / 256) mod 256]].
-Proof. exact ProofsTokens.announce_then_get_refuted. Qed.
-Print Assumptions announce_then_get_refuted.
+(* announce_then_get: after an accepted announce_peer(ih, port) from ip and then ANY list of ops
+   without housekeeping (pruning) and without a further announce for ih, get_peers(ih) answers
+   with values containing ip ++ port in network byte order (store of ih within max_peers entries) *)
+Theorem announce_then_get : forall sha s ih ip port tok ops ip2 rnd,
+  err s = false -> token_valid sha s tok ip = true -> port_ok port ->
+  forallb (neutral ih) ops = true ->
+  let s2 := run sha (fst (step sha s (OAnnounce ih ip port tok))) ops in
+  err s2 = false ->
+  (forall l, get_tracker ih (trackers s2) = Some l -> lenN l <= Params.dht_tracker_max_peers) ->
+  exists t vals, snd (step sha s2 (OGetPeers ih ip2 rnd)) = Rpeers t vals /\
+                 In (ipbytes ip ++ [(port16 port / 256) mod 256; port16 port mod 256]) vals.
+Proof. exact ProofsTokens.announce_then_get. Qed.
+Print Assumptions announce_then_get.
 
-(* what does hold: the announced peer is returned, with the port field in HOST byte order *)
-Theorem announce_then_get_hostorder : forall sha s ih ip port tok ip2 rnd,
-  err s = false -> token_valid sha s tok ip = true -> port16 port <> 0 ->
-  let s1 := fst (step sha s (OAnnounce ih ip port tok)) in
-  (forall l, get_tracker ih (trackers s1) = Some l -> lenN l <= Params.dht_tracker_max_peers) ->
-  exists t vals, snd (step sha s1 (OGetPeers ih ip2 rnd)) = Rpeers t vals /\
-                 In (ipbytes ip ++ [port16 port mod 256; (port16 port / 256) mod 256]) vals.
-Proof. exact ProofsTokens.announce_then_get_hostorder. Qed.
-Print Assumptions announce_then_get_hostorder.
+(* "until pruned": housekeeping keeps a stored peer that announced at most timeout_peer_announce
+   seconds ago *)
+Theorem housekeeping_keeps_fresh_peer : forall sha s ih ip port secret l p,
+  err s = false -> get_tracker ih (trackers s) = Some l -> In p l -> pip p = ip -> pport p = htons16 (port16 port) ->
+  now s < u32 -> Params.dht_timeout_peer_announce <= now s -> now s <= pseen p + Params.dht_timeout_peer_announce ->
+  stored ih ip port (fst (step sha s (OHousekeeping secret))).
+Proof. exact ProofsTokens.housekeeping_keeps. Qed.
+Print Assumptions housekeeping_keeps_fresh_peer.
 
 (* "counters = counts" (DESIGN.md) is false for the bad counter: witness op list after which a bucket
    has m_bad = 1 and no bad node (m_good stays exact in the witness) *)
@@ -111,3 +119,88 @@ Theorem counters_exact_refuted :
     exists b, In b (tb (tab s)) /\ bbad b = 1 /\ count is_bad (bnodes b) = 0 /\ bgood b = count is_good (bnodes b).
 Proof. exact ProofsCounters.counters_exact_refuted. Qed.
 Print Assumptions counters_exact_refuted.
+
+(* ------------------------------------------------------------------ reply_shape (datagram level) *)
+
+(* every datagram that reaches the dispatcher (a bencode dictionary whose y is not "r"/"e") gets
+   exactly one answer, an error or a normal reply; the error flag (internal_error) never changes *)
+Theorem reply_exactly_one : forall sha s ip rnd m,
+  (exists t e, snd (dgram sha s ip rnd m) = RpErr t e) \/ (exists t a b c, snd (dgram sha s ip rnd m) = RpOk t a b c).
+Proof. exact dgram_one_reply. Qed.
+Print Assumptions reply_exactly_one.
+
+Theorem reply_never_internal_error : forall sha s ip rnd m, err (fst (dgram sha s ip rnd m)) = err s.
+Proof. exact dgram_no_internal_error. Qed.
+Print Assumptions reply_never_internal_error.
+
+(* t (a string of at most 20 bytes) is echoed by whatever is answered *)
+Theorem reply_echoes_t : forall sha s ip rnd m t, m_t m = Some t -> lenN t <= 20 ->
+  (exists e, snd (dgram sha s ip rnd m) = RpErr (Some t) e) \/ (exists a b c, snd (dgram sha s ip rnd m) = RpOk t a b c).
+Proof. exact dgram_echo_t. Qed.
+Print Assumptions reply_echoes_t.
+
+(* well-formed ping: a normal reply (r.id = own id by construction of RpOk) without body *)
+Theorem reply_shape_ping : forall sha s ip rnd m t id, envelope_ok s m t s_ping id ->
+  snd (dgram sha s ip rnd m) = RpOk t None None None.
+Proof. exact reply_ping. Qed.
+Print Assumptions reply_shape_ping.
+
+(* well-formed find_node: nodes only (or error 201 when the node knows nobody) *)
+Theorem reply_shape_find_node : forall sha s ip rnd m t id tg, envelope_ok s m t s_find_node id ->
+  m_target m = Some tg -> hs_len <= lenN tg ->
+  let c := snd (closest_nodes (tab s) (be_to_N (firstn idbytes tg))) in
+  (c = [] /\ snd (dgram sha s ip rnd m) = RpErr (Some t) E_no_nodes) \/
+  (c <> [] /\ snd (dgram sha s ip rnd m) = RpOk t None (Some c) None).
+Proof. exact reply_find_node. Qed.
+Print Assumptions reply_shape_find_node.
+
+(* the node list: at most K whole entries, each a non-bad node of the table, when the bucket's
+   cache is not filled ... *)
+Theorem reply_nodes_live_when_fresh : forall t id e, fresh_for t id -> In e (snd (closest_nodes t id)) ->
+  lenN (snd (closest_nodes t id)) <= K /\
+  exists b n, In b (tb t) /\ In n (bnodes b) /\ is_bad n = false /\ e = (nid n, nip n, nport n).
+Proof. exact closest_fresh_live. Qed.
+Print Assumptions reply_nodes_live_when_fresh.
+
+(* ... and not in general: a filled cache survives a node turning bad (until the next add/remove in
+   that bucket or the next housekeeping) *)
+Theorem reply_nodes_stale_refuted :
+  exists sha ops, let s := run sha (init (2 ^ 159 + 1) 1 2 34560000) ops in
+    err s = false /\
+    (exists b n, In b (tb (tab s)) /\ In n (bnodes b) /\ nid n = st_id /\ is_bad n = true) /\
+    snd (step sha s (OFindNode 5)) = Rnodes [(st_id, 2130706434, 4000)].
+Proof. exact ProofsReply.reply_nodes_stale_refuted. Qed.
+Print Assumptions reply_nodes_stale_refuted.
+
+(* well-formed get_peers: token = H(current secret, source ip)[0..8]; values are stored peers of
+   the asked info-hash only, else nodes *)
+Theorem reply_shape_get_peers : forall sha s ip rnd m t id h, envelope_ok s m t s_get_peers id ->
+  m_ih m = Some h -> hs_len <= lenN h ->
+  let ih := be_to_N (firstn idbytes h) in
+  let tok := token_for sha (cur s) ip in
+  match get_tracker ih (trackers s) with
+  | Some (p :: l) =>
+    exists vals, snd (dgram sha s ip rnd m) = RpOk t (Some tok) None (Some vals) /\ vals <> [] /\
+                 forall v, In v vals -> In v (map peer_bytes (p :: l))
+  | _ =>
+    let c := snd (closest_nodes (tab s) ih) in
+    (c = [] /\ snd (dgram sha s ip rnd m) = RpErr (Some t) E_no_peers_nodes) \/
+    (c <> [] /\ snd (dgram sha s ip rnd m) = RpOk t (Some tok) (Some c) None)
+  end.
+Proof. exact reply_get_peers. Qed.
+Print Assumptions reply_shape_get_peers.
+
+(* well-formed announce_peer: refused with error 203 and no state change iff the token is not valid
+   or the port is not an integer in 1..65535; else an empty normal reply and (ip, port) stored *)
+Theorem reply_shape_announce : forall sha s ip rnd m t id h tk, envelope_ok s m t s_announce_peer id ->
+  m_ih m = Some h -> hs_len <= lenN h -> m_token m = Some tk ->
+  let ih := be_to_N (firstn idbytes h) in
+  (token_valid sha s tk ip = false ->
+     snd (dgram sha s ip rnd m) = RpErr (Some t) E_token /\ fst (dgram sha s ip rnd m) = s) /\
+  (token_valid sha s tk ip = true -> forall z, m_port m = PInt z -> (1 <= z <= 65535)%Z ->
+     snd (dgram sha s ip rnd m) = RpOk t None None None /\
+     (err s = false -> stored ih ip (Z.to_N z) (fst (dgram sha s ip rnd m)))) /\
+  (token_valid sha s tk ip = true -> (forall z, m_port m = PInt z -> (z < 1 \/ 65535 < z)%Z) ->
+     (exists e, snd (dgram sha s ip rnd m) = RpErr (Some t) e) /\ fst (dgram sha s ip rnd m) = s).
+Proof. exact reply_announce. Qed.
+Print Assumptions reply_shape_announce.
